@@ -37,6 +37,44 @@ def _base(draw):
     case = {'query': q, 'cands': cands, 'ndim': ndim,
             'window': draw(st.one_of(st.none(), st.integers(1, 6))), 'penalty': draw(st.sampled_from([None, None, 0.5, 1.0])),
             'use_lb': draw(st.booleans()), 'use_c': draw(st.booleans())}
+    if draw(st.integers(0, 4)) == 0:
+        # long series and wide windows, with the shapes DTW is made for: piecewise constant series whose time-warped
+        # copies (same levels, other run lengths - DTW distance 0 within the window) are the true neighbours, among
+        # shifted copies and unrelated candidates
+        small = st.integers(-4, 4).map(lambda k: k / 4.0)
+        level = st.sampled_from([-4.0, -1.0, 0.0, 0.0, 1.0, 3.0, 4.0, 5.0])
+
+        def plateaus(levels, total):
+            # piecewise constant series: the given levels with drawn run lengths (each >= 1) adding up to `total`
+            # (cuts close to either end are favoured: a level that only occurs in the first or last one or two samples)
+            cut = st.one_of(st.integers(1, total - 1), st.sampled_from([1, 2, total - 2, total - 1]))
+            cuts = sorted(draw(st.lists(cut, min_size=len(levels) - 1, max_size=len(levels) - 1,
+                                        unique=True))) if len(levels) > 1 else []
+            out, prev = [], 0
+            for lv, cut in zip(levels, cuts + [total]):
+                out += [lv] * (cut - prev)
+                prev = cut
+            return out
+        lq = draw(st.integers(18, 36))
+        levels = draw(st.lists(level, min_size=1, max_size=4))
+        q = plateaus(levels, lq)
+        cands = []
+        for _ in range(draw(st.integers(2, 5))):
+            kind = draw(st.sampled_from(['warped', 'warped', 'shifted', 'random']))
+            lc = draw(st.integers(18, 36))
+            if kind == 'warped':
+                c = plateaus(levels, lc)                    # the same levels, other run lengths: a time-warped copy
+            elif kind == 'shifted':
+                off = draw(st.sampled_from([0.25, -0.25, 1.0]))
+                c = plateaus([v + off for v in levels], lc)
+            else:
+                c = draw(st.lists(small, min_size=lc, max_size=lc))
+            cands.append(c)
+        order = draw(st.permutations(list(range(len(cands)))))
+        cands = [cands[i] for i in order]
+        case.update({'query': q, 'cands': cands, 'ndim': 1, 'window': draw(st.one_of(st.none(), st.integers(17, 30))),
+                     'use_lb': draw(st.sampled_from([True, True, True, False])),
+                     'use_c': draw(st.sampled_from([False, False, True])), 'long': True})
     ds = sorted(set(d for d in _ref_dists(case) if d != ref.inf))
     thr = draw(gen.threshold_between(ds, exact_ok=False, allow_none=True, none_weight=3))
     case['max_dist'] = None
@@ -197,6 +235,8 @@ def run_single(case):
             'k=None' if k is None else 'k', 'threshold' if _threshold(case) != ref.inf else 'no-threshold')
     if len(set(dists)) < len(dists):
         res.cls('ties')
+    if case.get('long'):
+        res.cls('long')
     ss, exc = libcall(_mk, case)
     if exc:
         res.fail('init:' + exc, 'constructor raised')
